@@ -30,7 +30,7 @@ def hexh_stratum(ctx, d, n):
         addr = 0x401000
         for _ in range(rng.randint(3, 10)):
             m = rng.choice(["mov", "movb", "add", "xor", "cmp"])
-            ops = [rng.choice(["%ah", "%bh", "%ch", "%dh", "%al", "%bl", "$0xa", "$0xb", "$0xc", "%rax"]) for _ in range(2)]
+            ops = [rng.choice(["%ah", "%bh", "%ch", "%dh", "%al", "%bl", "$0xa", "$0xb", "$0xc", "%rax", "$0x0a", "$0x10", "$0x1", "$0x100"]) for _ in range(2)]
             insts.append(L.SInst(addr, m, ops, None, None, 2))
             addr += 2
         from jv import dsl
@@ -41,9 +41,14 @@ def hexh_stratum(ctx, d, n):
             continue
         d.prep, d.style = prep, "hexh"
         k = rng.randrange(len(insts))
-        name = rng.choice(HREGS)
-        pos = rng.randrange(2)
-        ops = [name] if pos == 0 else [rng.choice(["%", "a", "0x"]), name]
+        if rng.random() < 0.5:
+            name = rng.choice(HREGS)
+            pos = rng.randrange(2)
+            ops = [name] if pos == 0 else [rng.choice(["%", "a", "0x"]), name]
+        else:
+            # Intel-style hex literal names: 'ah' -> register, but '0ah' / '10h' name the immediates 0x0a / 0x10
+            name = rng.choice(["0ah", "0bh", "0ch", "1h", "10h"])
+            ops = rng.choice([[name], [name, "%"], ["%", name], [name, name]])
         d.run_pattern([{insts[k].mnem: ops}], "base", True)
 
 
